@@ -12,7 +12,8 @@ src = open("/verif/tools/run_seeds.py").read().rsplit("\n\nmain()", 1)[0]
 ns = {}
 exec(compile(src, "run_seeds", "exec"), ns)
 allkeys = ns["allkeys"]
-names = sys.argv[1:] or sorted(n for n in os.listdir("/verif/refactors") if os.path.isdir(os.path.join("/verif/refactors", n)))
+REFDIR = os.environ.get("REFDIR", "/verif/refactors")  # REFDIR=/verif/refactors-open: the rewrites that still set off alarms
+names = sys.argv[1:] or sorted(n for n in os.listdir(REFDIR) if os.path.isdir(os.path.join(REFDIR, n)))
 bases = {}
 def base_keys(commit):
     if commit not in bases:
@@ -26,7 +27,7 @@ def base_keys(commit):
     return bases[commit]
 rows = []
 for n in names:
-    d = os.path.join("/verif/refactors", n)
+    d = os.path.join(REFDIR, n)
     meta = json.load(open(os.path.join(d, "meta.json")))
     commit = meta.get("base", "HEAD")
     base = base_keys(commit)
@@ -49,6 +50,6 @@ for n in names:
     print(n, "SILENT" if det["silent"] else "FALSE-ALARM", json.dumps(det["new_reports"])[:2500], json.dumps(det["errors"])[:300], flush=True)
     rows.append((n, "silent" if det["silent"] else "**reported**", "; ".join(f"{p}: {', '.join(v)}" for p, v in det["new_reports"].items()) or "–"))
 if not sys.argv[1:]:
-    with open("/verif/refactors/RESULTS.md", "w") as f:
+    with open(os.path.join(REFDIR, "RESULTS.md"), "w") as f:
         f.write("# Behaviour-preserving refactorings vs. checks\n\n| refactoring | all 20 checks | reports |\n|---|---|---|\n")
         for r in rows: f.write("| " + " | ".join(r) + " |\n")
